@@ -11,16 +11,34 @@ Proof. reflexivity. Qed.
 Lemma le64_blen v : blen (le64 v) = 8.
 Proof. reflexivity. Qed.
 
+Lemma div256_step v k : v / 2 ^ (8 * k) = (v / 2 ^ (8 * k)) mod 256 + 256 * (v / 2 ^ (8 * (k + 1))).
+Proof.
+  replace (2 ^ (8 * (k + 1))) with (2 ^ (8 * k) * 256).
+  - rewrite <- N.div_div by (try discriminate; apply N.pow_nonzero; discriminate).
+    rewrite N.add_comm. apply N.div_mod. discriminate.
+  - replace (8 * (k + 1)) with (8 * k + 8) by lia. rewrite N.pow_add_r. reflexivity.
+Qed.
+
 Lemma le64_roundtrip v : v < 2 ^ 64 -> le64_dec (le64 v) = v.
 Proof.
   intros Hv. unfold le64, le64_dec. rewrite !byte_of_spec, !N.shiftl_mul_pow2.
-  change (8 * 0) with 0. change (8 * 1) with 8. change (8 * 2) with 16. change (8 * 3) with 24.
-  change (8 * 4) with 32. change (8 * 5) with 40. change (8 * 6) with 48. change (8 * 7) with 56.
-  change (2 ^ 0) with 1. change (2 ^ 8) with 256. change (2 ^ 16) with 65536.
-  change (2 ^ 24) with 16777216. change (2 ^ 32) with 4294967296. change (2 ^ 40) with 1099511627776.
+  pose proof (div256_step v 0) as H0. pose proof (div256_step v 1) as H1. pose proof (div256_step v 2) as H2.
+  pose proof (div256_step v 3) as H3. pose proof (div256_step v 4) as H4. pose proof (div256_step v 5) as H5.
+  pose proof (div256_step v 6) as H6. pose proof (div256_step v 7) as H7.
+  assert (H8 : v / 2 ^ (8 * (7 + 1)) = 0) by (apply N.div_small; exact Hv).
+  change (0 + 1) with 1 in *. change (1 + 1) with 2 in *. change (2 + 1) with 3 in *. change (3 + 1) with 4 in *.
+  change (4 + 1) with 5 in *. change (5 + 1) with 6 in *. change (6 + 1) with 7 in *. change (7 + 1) with 8 in *.
+  change (2 ^ (8 * 0)) with 1 in *. rewrite N.div_1_r in *.
+  set (q1 := v / 2 ^ (8 * 1)) in *. set (q2 := v / 2 ^ (8 * 2)) in *. set (q3 := v / 2 ^ (8 * 3)) in *.
+  set (q4 := v / 2 ^ (8 * 4)) in *. set (q5 := v / 2 ^ (8 * 5)) in *. set (q6 := v / 2 ^ (8 * 6)) in *.
+  set (q7 := v / 2 ^ (8 * 7)) in *. set (q8 := v / 2 ^ (8 * 8)) in *.
+  set (b0 := v mod 256) in *. set (b1 := q1 mod 256) in *. set (b2 := q2 mod 256) in *. set (b3 := q3 mod 256) in *.
+  set (b4 := q4 mod 256) in *. set (b5 := q5 mod 256) in *. set (b6 := q6 mod 256) in *. set (b7 := q7 mod 256) in *.
+  clearbody q1 q2 q3 q4 q5 q6 q7 q8 b0 b1 b2 b3 b4 b5 b6 b7.
+  change (2 ^ 8) with 256. change (2 ^ 16) with 65536. change (2 ^ 24) with 16777216.
+  change (2 ^ 32) with 4294967296. change (2 ^ 40) with 1099511627776.
   change (2 ^ 48) with 281474976710656. change (2 ^ 56) with 72057594037927936.
-  change (2 ^ 64) with 18446744073709551616 in Hv.
-  zify. Z.div_mod_to_equations. lia.
+  lia.
 Qed.
 
 Lemma byte_of_lt v k : byte_of v k < 256.
